@@ -935,6 +935,117 @@ def loaded_search(ctx, post, r, rounds):
     return bad
 
 
+def raw_file_corners(ctx, post, r, rounds):
+    """Statistics read from a plain binary file (the one kind of file whose layout and float width the loader has to
+    work out for itself): (a) sound float64 statistics with a coefficient that never varied and has many significant
+    bits (a log-energy floor) - sum^2 and count * sum-of-squares agree only up to round-off; (b) statistics stored as
+    32-bit floats, the object then accumulates further: the transform is that of 'file + everything since', to float64
+    precision.  -> list of (what, detail)."""
+    np = np_()
+    os.makedirs(FILE_DIR, exist_ok=True)
+    bad = []
+    consts = [math.log(1e-5), 0.1, 1.0 / 3.0, -math.pi, 17.3, -2.5e-3, math.log(1e-10), 1e-5 ** 0.5]
+    with warnings.catch_warnings():
+        warnings.simplefilter("ignore")
+        for n in range(rounds):
+            path = os.path.join(FILE_DIR, "raw_s%d_%d" % (ctx.seed, n))
+            try:
+                if n % 2 == 0:
+                    F = r.choice([1, 2, 3, 5])
+                    N = r.choice([10, 37, 50, 100, 333, r.randint(2, 500)])
+                    cv = r.choice(consts)
+                    ccol = r.randrange(F)
+                    rs = np.random.RandomState(r.randrange(2 ** 31))
+                    data = rs.randn(N, F) * 2.0 + 3.0
+                    data[:, ccol] = cv
+                    nv = r.random() < 0.7
+                    acc = post.Standardize(norm_var=nv)
+                    for part in np.array_split(data, r.randint(1, 4)):
+                        if len(part):
+                            acc.accumulate(part)
+                    by = r.choice(["save", "numpy"])
+                    if by == "save":
+                        acc.save(path)
+                    else:
+                        st = np.zeros((2, F + 1))
+                        st[0, :-1], st[0, -1], st[1, :-1] = data.sum(0), N, (data ** 2).sum(0)
+                        st.tofile(path)
+                    desc = dict(kind="raw-file-constant-coefficient", F=F, n_vectors=N, constant=cv, constant_column=ccol, norm_var=nv, written_by=by)
+                    ctx.count("rawfile:constant-coefficient")
+                    ctx.case(desc, nontrivial=True)
+                    loaded = post.Standardize(path, norm_var=nv, force_as="file")
+                    x = rs.randn(4, F) * 2.0 + 3.0
+                    x[:, ccol] = cv
+                    y = loaded.apply(x)
+                    y0 = acc.apply(x)
+                    mean, var = data.mean(0), data.var(0)
+                    exp = (x - mean) / (np.sqrt(var) if nv else 1.0)
+                    exp[:, ccol] = 0.0  # a zero variance is replaced with 1: x - mean
+                    err = float(np.max(np.abs(y - exp) / np.maximum(1.0, np.abs(exp))))
+                    if not err <= 1e-6:
+                        bad.append(("statistics with a constant coefficient, read from a plain binary file: apply differs from (x - mean)/std",
+                                    dict(desc, rel_err=err, x=x.tolist(), got=y.tolist(), expected=exp.tolist())))
+                    elif not np.allclose(y, y0, rtol=1e-9, atol=1e-9):
+                        bad.append(("apply of the object constructed from the file differs from apply of the object that wrote it", desc))
+                else:
+                    F = r.choice([2, 4, 6])  # 2(F+1) 32-bit values do not fill a whole number of float64 rows: recognisable
+                    rs = np.random.RandomState(r.randrange(2 ** 31))
+                    off = r.choice([0.0, 10.0, 100.0, -300.0])
+                    N0 = r.choice([50, 1000, 2 ** 24])
+                    base = rs.randn(50, F) + off
+                    st = np.zeros((2, F + 1), dtype=np.float32)
+                    st[0, :-1], st[0, -1], st[1, :-1] = base.sum(0) * (N0 / 50.0), N0, (base ** 2).sum(0) * (N0 / 50.0)
+                    st.tofile(path)
+                    S = st.astype(np.float64)  # what the file says, exactly
+                    nv = r.random() < 0.7
+                    desc = dict(kind="raw-file-float32-then-accumulate", F=F, count_in_file=N0, offset=off, norm_var=nv)
+                    ctx.count("rawfile:float32")
+                    ctx.case(desc, nontrivial=True)
+                    loaded = post.Standardize(path, norm_var=nv, force_as="file")
+                    steps = r.randint(0, 3)
+                    for k in range(steps):
+                        if r.random() < 0.5:
+                            m = r.choice([1, 200, 3000])
+                            for v in rs.randn(m, F) + off:
+                                loaded.accumulate(v)
+                                S[0, :-1] += v
+                                S[1, :-1] += v * v
+                                S[0, -1] += 1
+                        else:
+                            t = rs.randn(r.randint(1, 40), F) + off
+                            loaded.accumulate(t)
+                            S[0, :-1] += t.sum(0)
+                            S[1, :-1] += (t * t).sum(0)
+                            S[0, -1] += len(t)
+                    desc["accumulate_rounds_after_loading"] = steps
+                    x = rs.randn(5, F) + off
+                    y = loaded.apply(x)
+                    mean = S[0, :-1] / S[0, -1]
+                    var = S[1, :-1] / S[0, -1] - mean ** 2
+                    if np.any(var < 1e-3):
+                        continue  # float32 statistics too coarse to define a variance: nothing to compare
+                    exp = (x - mean) / (np.sqrt(var) if nv else 1.0)
+                    # float64 cancellation allowance of E[x^2] - mean^2 (as in the main oracle)
+                    tol = 1e-9 + 64 * 2.2e-16 * float(np.max((S[1, :-1] / S[0, -1]) / var))
+                    err = float(np.max(np.abs(y - exp) / np.maximum(1.0, np.abs(exp))))
+                    if str(y.dtype) != "float64" or not err <= tol:
+                        bad.append(("statistics loaded from a 32-bit plain binary file (plus what was accumulated since): apply differs from "
+                                    "(x - mean)/std of those statistics beyond float64 precision",
+                                    dict(desc, rel_err=err, tol=tol, result_dtype=str(y.dtype))))
+            except Exception as e:  # noqa: BLE001 - every call here is valid
+                bad.append(("a valid call raised %s: %s" % (type(e).__name__, e), dict(desc)))
+            finally:
+                if os.path.exists(path):
+                    os.remove(path)
+            if len(bad) > 5:
+                break
+    try:
+        os.rmdir(FILE_DIR)
+    except OSError:
+        pass
+    return bad
+
+
 # --------------------------------------------------------------------------
 
 
@@ -1054,6 +1165,7 @@ def run(ctx):
     mm = metamorphic(ctx, post, r, ctx.scale(400, 6000))
     mm += exhaustive_small(ctx, post)
     mm += loaded_search(ctx, post, r, ctx.scale(300, 3000))
+    mm += raw_file_corners(ctx, post, r, ctx.scale(120, 1200))
     ctx.log("metamorphic search done")
     for what, detail in mm[:5]:
         ctx.fail("property violated on the implementation (%s)" % what, detail, kind="impl")
